@@ -334,9 +334,10 @@ Proof.
 Qed.
 
 Lemma json_rt e b ptr g : desc_ok (mk_desc b ptr TJson) = true -> gval_ok e b g = true ->
+  (match b with BCustom _ => false | _ => true end) = true ->
   exists t, json_enc g = DBytes t /\ json_dec b t = Ok g.
 Proof.
-  intros Hd Hg. destruct b as [w|w| | | | | | |[]]; try discriminate; destruct g; try discriminate; cbn [json_enc].
+  intros Hd Hg Hnc. destruct b as [w|w| | | | | | |[]]; try discriminate; destruct g; try discriminate; cbn [json_enc].
   - eexists; split; [reflexivity|]. apply json_int_rt; auto.
   - eexists; split; [reflexivity|]. apply json_int_rt; auto.
   - destruct b; eexists; split; reflexivity.
@@ -417,12 +418,12 @@ Proof. apply take_pad_id. Qed.
 
 (** The tri-state type: "unanswered" is written as NULL and NULL is read as "unanswered" (not as the zero
     value "no"); 0 and 1 travel as integers. *)
-Lemma tri_rt e ptr z c p s :
+Lemma tri_rt e ptr tg z c p s :
   gval_ok e (BCustom CTri) (GInt z) = true ->
   negb (ptr && Z.eqb z 2) = true ->
-  col_matches (mk_desc (BCustom CTri) ptr TNone) c p = true ->
-  repr e c p (valuer (mk_desc (BCustom CTri) ptr TNone) (Dyn (BCustom CTri) ptr (FVal (GInt z)))) = Some s ->
-  scanner e (mk_desc (BCustom CTri) ptr TNone) s = Ok (FVal (GInt z)).
+  col_matches (mk_desc (BCustom CTri) ptr tg) c p = true ->
+  repr e c p (valuer (mk_desc (BCustom CTri) ptr tg) (Dyn (BCustom CTri) ptr (FVal (GInt z)))) = Some s ->
+  scanner e (mk_desc (BCustom CTri) ptr tg) s = Ok (FVal (GInt z)).
 Proof.
   intros Hg Hnp Hc Hr. cbn [gval_ok] in Hg. apply andb_prop in Hg as [H0 H2].
   apply Z.leb_le in H0. apply Z.leb_le in H2. cbn [valuer d_tag] in Hr.
@@ -469,7 +470,7 @@ Proof.
     (* json / implicitnull on plain kinds *)
     all: try match type of Hr with
              | repr _ _ _ (json_enc ?g) = _ =>
-                 destruct (json_rt e _ ptr g Hd Hx) as (t & Hj & Hdec); rewrite Hj in Hr;
+                 destruct (json_rt e _ ptr g Hd Hx eq_refl) as (t & Hj & Hdec); rewrite Hj in Hr;
                  pose proof (text_as_bytes e c p _ t s (or_intror eq_refl) Hr) as Hb;
                  rewrite scanner_nonnull;
                  [ unfold scan_valid, scan_valid_gen; cbn [d_base d_tag]; rewrite Hb, Hdec; reflexivity
@@ -508,26 +509,63 @@ Proof.
         -- cbn [plain] in Hr.
            rewrite scanner_nonnull; [| reflexivity | eapply nonnull_src; [|exact Hr]; discriminate].
            erewrite time_rt; eauto. reflexivity.
-    + (* custom types *)
-      destruct cu; destruct tg; try discriminate; destruct g as [| | | |o| |pl]; try discriminate;
-        cbn [valuer d_tag] in Hr.
+    + (* custom types; a type that is its own Valuer / Scanner is written and read by itself whatever tag it carries *)
+      destruct cu.
       * (* Valuer / Scanner *)
+        destruct g as [| | | |o| |pl]; try discriminate.
+        assert (Hv : valuer (mk_desc (BCustom CValuer) ptr tg) (Dyn (BCustom CValuer) ptr (FVal (GCust pl))) = DBytes pl)
+          by reflexivity.
+        rewrite Hv in Hr.
         destruct (text_src e c p _ pl s (or_intror eq_refl) Hr) as [-> | [-> _]]; reflexivity.
       * (* Marshal / Unmarshal, binary tag *)
+        destruct tg; try discriminate; destruct g as [| | | |o| |pl]; try discriminate; cbn [valuer d_tag] in Hr.
         destruct (text_src e c p _ (enc_bin pl) s (or_intror eq_refl) Hr) as [-> | [-> [[-> Hbad] | [-> ->]]]];
           [reflexivity | discriminate | discriminate].
       * (* TextMarshaler, string tag *)
+        destruct tg; try discriminate; destruct g as [| | | |o| |pl]; try discriminate; cbn [valuer d_tag] in Hr.
         destruct (text_src e c p _ (enc_text pl) s (or_intror eq_refl) Hr) as [-> | [-> _]]; reflexivity.
       * (* sql.NullString *)
+        destruct g as [| | | |o| |pl]; try discriminate.
         destruct o as [t|].
-        -- destruct (text_src e c p _ t s (or_introl eq_refl) Hr) as [-> | [-> _]]; reflexivity.
-        -- apply null_src in Hr. subst. destruct ptr; [discriminate Hnp|reflexivity].
+        -- assert (Hv : valuer (mk_desc (BCustom CNull) ptr tg) (Dyn (BCustom CNull) ptr (FVal (GBytes (Some t)))) = DStr t)
+             by reflexivity.
+           rewrite Hv in Hr.
+           destruct (text_src e c p _ t s (or_introl eq_refl) Hr) as [-> | [-> _]]; reflexivity.
+        -- assert (Hv : valuer (mk_desc (BCustom CNull) ptr tg) (Dyn (BCustom CNull) ptr (FVal (GBytes None))) = DNull)
+             by reflexivity.
+           rewrite Hv in Hr.
+           apply null_src in Hr. subst. destruct ptr; [discriminate Hnp|reflexivity].
       * (* [16]byte *)
+        destruct g as [| | | |o| |pl]; try discriminate.
+        assert (Hv : valuer (mk_desc (BCustom CUuid) ptr tg) (Dyn (BCustom CUuid) ptr (FVal (GCust pl))) = DBytes pl)
+          by reflexivity.
+        rewrite Hv in Hr.
         assert (Hfit : fit16 pl = pl) by (apply fit16_id; apply Nat.eqb_eq; exact Hx).
         destruct (text_src e c p _ pl s (or_intror eq_refl) Hr) as [-> | [-> _]];
           unfold scanner, scanner_gen; cbn [d_base]; rewrite Hfit; reflexivity.
       * (* tri-state: 2 <-> NULL, handed to the type's own Scan *)
+        destruct g as [z| | | | | |]; try discriminate.
         eapply tri_rt; eauto.
+Qed.
+
+(** ** Interface before tag, on both sides
+
+    Valuer.Value asks for driver.Valuer before it looks at the tags, Scanner.Scan asks for sql.Scanner
+    before it looks at the tags: for a column whose type is its own Valuer and Scanner neither side's
+    result depends on the tag the column carries, which is why such a column round-trips under every tag
+    (a Valuer that let a json tag win while Scan still went to the type would write JSON and read it back
+    as the type's own payload). *)
+Definition retag (d : desc) (tg : tag) : desc := mk_desc (d_base d) (d_ptr d) tg.
+
+Theorem self_typed_column_ignores_its_tag e d tg x s :
+  self_scanning (d_base d) = true ->
+  match x with FNil => True | FVal g => gval_ok e (d_base d) g = true end ->
+  valuer (retag d tg) (dyn_of (retag d tg) x) = valuer d (dyn_of d x) /\
+  scanner e (retag d tg) s = scanner e d s.
+Proof.
+  intros Hs Hx. destruct d as [b ptr t0]. unfold retag, dyn_of. cbn [d_base d_ptr] in *.
+  destruct b as [| | | | | | | |[]]; try discriminate Hs; split; try reflexivity;
+    destruct x as [|g]; try reflexivity; destruct g as [z|f|bb|st|[t1|]|t1|pl]; try discriminate Hx; reflexivity.
 Qed.
 
 (** * Whole rows: BuildStruct / parseBinlogRow after unbuildStruct *)
@@ -701,7 +739,7 @@ Proof.
   destruct d as [b dptr tg]. cbn [d_base d_ptr d_tag] in *. unfold dyn_of. cbn [d_base d_ptr].
   destruct (base_eqb b (BCustom CTri)) eqn:Etri.
   { apply base_eqb_eq in Etri. subst b. destruct g as [z| | | | | |]; try discriminate Hg.
-    destruct tg; try discriminate Hd. cbn [as_field]. destruct (z =? 2) eqn:E2.
+    cbn [as_field]. destruct (z =? 2) eqn:E2.
     - split; [cbn [valuer]; rewrite E2; destruct ptr, dptr; reflexivity | left; reflexivity].
     - split; [reflexivity | right; eexists; split; [reflexivity|]; cbn [fval_ok d_base d_ptr]; rewrite Hg, E2;
                             destruct dptr; reflexivity]. }
